@@ -175,6 +175,9 @@ def unsplit_netloc(username, password, hostname, port):
         auth = username + ":" + password
     elif username:
         auth = username
+    elif password:
+        # NOTE: a password can come without any username ("http://:pw@host")
+        auth = ":" + password
     else:
         auth = None
 
